@@ -149,9 +149,9 @@ partial def pGoVals : Nat → P → Option (List GoVal × P)
 /-! ### rendering -/
 
 def showItem (t : Tmpl) : String :=
-  s!"bytes={hex t.enc} str={hex t.print} vars={hexList t.vars} size={t.size}"
+  s!"bytes={hex t.enc} str={hex t.print} vars={hexList t.vars} size={t.size} fisl={t.fillInLen}"
 
 def showMsg (m : Msg) : String :=
-  s!"name={hex m.name} s={m.stream} f={m.function} w={m.waitBit} dir={hex m.direction} sid={m.sessionID} sys={hex m.sysBytes} hdr={hex m.header} str={hex m.print} vars={hexList m.item.vars} bytes={hex m.enc}"
+  s!"name={hex m.name} s={m.stream} f={m.function} w={m.waitBit} dir={hex m.direction} sid={m.sessionID} sys={hex m.sysBytes} hdr={hex m.header} str={hex m.print} vars={hexList m.item.vars} bytes={hex m.enc} type={hex Msg.typeName}"
 
 end Secs.Proto
